@@ -90,6 +90,38 @@ def run(ctx):
                 res.violations.append(vlib.Violation("the repository directory changed during scanning", {"objects": len(sc.objects)},
                                                      expected=before, observed=after))
             shutil.rmtree(d, ignore_errors=True)
+        # (c') a long history whose biggest objects sit in the root commit, which carries a lightweight and an annotated tag:
+        # the names cited depend on the commit/tree matching having finished before references are processed
+        big = S.Scenario()
+        huge = big.add({"kind": "blob", "size": 30000000, "data": None})
+        bt = big.add({"kind": "tree", "entries": [(0o100644, b"huge%d" % i, huge) for i in range(40)]})
+        rt = big.add({"kind": "tree", "entries": [(0o40000, b"big", bt)]})
+        prev = rootc = big.add({"kind": "commit", "tree": rt, "parents": [], "date": 1000000000})
+        sm = big.add({"kind": "blob", "size": 3, "data": None})
+        for i in range(1500 if quick else 6000):
+            t = big.add({"kind": "tree", "entries": [(0o100644, b"f%d" % i, sm)]})
+            prev = big.add({"kind": "commit", "tree": t, "parents": [prev], "date": 1000000001 + i})
+        rel = big.add({"kind": "tag", "target": rootc, "name": b"release"})
+        big.refs += [(b"refs/heads/main", prev), (b"refs/tags/old", rootc), (b"refs/tags/release", rel)]
+        big.compute()
+        border = big.enum_gitlike([x for _, x in sorted(big.refs)])
+        first = None
+        for k in range(8 if quick else 40):
+            env_extra = {"GOMAXPROCS": str([16, 2, 1, 4][k % 4])}
+            rc, out, err, log = eng.run_fake(big, border, ["-v", "--no-progress", "--names=full"], [], extra_args=[], env=env_extra, timeout=120)
+            res.case(("long-history", k), True)
+            if rc != 0:
+                res.violations.append(vlib.Violation("run failed: %s" % str(err)[:200], {"args": ["-v", "--names=full"]}))
+                break
+            if first is None:
+                first = out
+            elif out != first:
+                dl = [(a, b) for a, b in zip(first.split(b"\n"), out.split(b"\n")) if a != b][:3]
+                res.violations.append(vlib.Violation("two runs on the same repository produced different stdout",
+                                                     {"args": ["-v", "--no-progress", "--names=full"], "repository": "root commit with the biggest objects, "
+                                                      "tagged lightweight and annotated, followed by a long linear history", "run": k},
+                                                     expected=str(dl[0][0] if dl else b"")[:300], observed=str(dl[0][1] if dl else b"")[:300]))
+                break
         # (d)
         race = vlib.build_go(race=True)["sizer"]
         nraces = 0
